@@ -6053,6 +6053,18 @@ let resolve_relidx fi rels =
                              O))))))))))))))))))))))))))))))))))))))))))))))))))))))))))))))))))))))))))))))))))))))))))))))))))))))))))))))))))))))))))))))))))))))))))))))))))))))))))))))))))))))))))))))))))))))))))))))))))))))))))))))))))))))))))))))))))))))))))))))))))))))))))))))))))))))))))))))))))))))))))))))))))))))))))))))))))))))))))))))))))))))))))))))))))))))))))))))))))))))))))))))))))))))))))))))))))))))))))))))))))))))))))))))))))))))))))))))))))))))))))))))))))))))))))))))))))))))))))))))))))))))))))))))))))))))))))))))))))))))))))))))))))))))))))))))))))))))))))))))))))))))))))))))))))))))))))))))))))))))))))))))))))))))))))))))))))))))))))))))))))))))))))))))))))))))))))))))))))))))))))))))))))))))))))))))))))))))))))))))))))))))))))))))))))))))))))))))))))))))))))))))))))))))))))))))))))))))))))))))))))))))))))))))))))))))))))))))))))))))))))))))))))))))))))))))))))))))))))))))))))))))))))))))))))))))))))))))))))))))))))))))))))))))))))))))))))))))))))))))))))))))))))))))))))))))))))))))))))))))))))
                          EIndex) (fun c -> ret (c, (snd r)))))
 
+(** val check_unsafe_rels : nat -> rel list -> unit mW **)
+
+let check_unsafe_rels fi rels =
+  if is_nil rels
+  then ret ()
+  else bind (getF fi) (fun f ->
+         whenM f.f_unsafe
+           (forM_ rels (fun r ->
+             bind get (fun s ->
+               bind (guard (is_rel_comp s (fst r)) ENotRelation) (fun _ ->
+                 guard (mk_get f.f_mask (fst r)) ERelNotInMask)))))
+
 (** val logged_entities : z list list -> ent list **)
 
 let logged_entities lg =
@@ -6276,25 +6288,27 @@ let step_op debug = function
 | OQueryAll (f, hrels) ->
   bind (resolveR hrels) (fun rels ->
     bind (resolve_relidx f rels) (fun rels0 ->
-      bind (query_open f rels0) (fun qi ->
-        bind (query_count qi) (fun cnt ->
-          bind
-            (let rec go fuel acc =
-               match fuel with
-               | O -> ret acc
-               | S fu ->
-                 bind (query_next debug qi) (fun more ->
-                   if more
-                   then bind (query_entity debug qi) (fun e ->
-                          go fu (app acc (e :: [])))
-                   else ret acc)
-             in go (S cnt) []) (fun es ->
-            bind (query_close qi) (fun _ ->
-              ret ((zn cnt) :: ((zn (length es)) :: (flat_map zent es)))))))))
+      bind (check_unsafe_rels f rels0) (fun _ ->
+        bind (query_open f rels0) (fun qi ->
+          bind (query_count qi) (fun cnt ->
+            bind
+              (let rec go fuel acc =
+                 match fuel with
+                 | O -> ret acc
+                 | S fu ->
+                   bind (query_next debug qi) (fun more ->
+                     if more
+                     then bind (query_entity debug qi) (fun e ->
+                            go fu (app acc (e :: [])))
+                     else ret acc)
+               in go (S cnt) []) (fun es ->
+              bind (query_close qi) (fun _ ->
+                ret ((zn cnt) :: ((zn (length es)) :: (flat_map zent es))))))))))
 | OQueryOpen (f, hrels) ->
   bind (resolveR hrels) (fun rels ->
     bind (resolve_relidx f rels) (fun rels0 ->
-      bind (query_open f rels0) (fun qi -> ret ((zn qi) :: []))))
+      bind (check_unsafe_rels f rels0) (fun _ ->
+        bind (query_open f rels0) (fun qi -> ret ((zn qi) :: [])))))
 | OQueryNext q -> bind (query_next debug q) (fun b -> ret ((zb b) :: []))
 | OQueryClose q -> bind (query_close q) (fun _ -> ret [])
 | OQueryCount q -> bind (query_count q) (fun n0 -> ret ((zn n0) :: []))
